@@ -445,6 +445,57 @@ def gen_mixed_script(rng):
     return {"cfg": cfg, "steps": steps, "flavour": "mixed"}
 
 
+def tcp_noise_latency_scripts():
+    """C14, oracle-only (TCP segments are not Link-model events): under a FIXED latency a UDP datagram sent in
+    the same step behind TCP segments that the destination refuses (its end of the connection is gone, it
+    answers RST) must still arrive inside the window - whatever else is delivered in the same pass."""
+    out = []
+    for tick_us, lat, nseg, v6 in [(2000, 3, 2, False), (1000, 2, 3, False), (3000, 4, 1, True), (2000, 6, 4, False)]:
+        cfg = {"seed": 77 + nseg, "tick_us": tick_us, "min_ms": lat, "max_ms": lat, "fail": 0.0, "repair": 1.0,
+               "nhosts": 2, "reg_order": [0, 1], "random_order": False, "curve": 5.0, "ipv6": v6,
+               "tcp": True, "tcp_cap": 64}
+        drain = (lat * 1000) // tick_us + 3
+        steps = [WARMUP(), {"ctl": [], "hosts": {"0": [["tcp_connect", 1, 1]]}}]
+        steps += [{"ctl": [], "hosts": {}} for _ in range(drain)]
+        steps.append({"ctl": [], "hosts": {"1": [["tcp_drop_readers", 0]]}})      # the accepting side drops its end
+        steps += [{"ctl": [], "hosts": {}} for _ in range(drain)]
+        uid = 500
+        for rnd in range(3):
+            cmds = [["tcp_write", 1, 900 + rnd * 10 + j] for j in range(nseg)] + [["send", 1, uid + rnd]]
+            steps.append({"ctl": [], "hosts": {"0": cmds}})
+            steps += [{"ctl": [], "hosts": {}} for _ in range(drain)]
+        out.append({"cfg": cfg, "steps": steps, "flavour": "tcp-noise-latency", "conns": {"1": [0, 1]},
+                    "udp_ids": [uid, uid + 1, uid + 2]})
+    return out
+
+
+def tcp_noise_latency_oracle(case, obs):
+    cfg = case["cfg"]
+    tick = cfg["tick_us"] * 1000
+    lat = cfg["min_ms"] * 1000000
+    sent = {}
+    for k, st in enumerate(case["steps"]):
+        for h, cmds in st.get("hosts", {}).items():
+            for c in cmds:
+                if c[0] == "send":
+                    sent[c[2]] = k
+    got = {}
+    for step, h, ids in obs.get("recv", []):
+        for x in ids:
+            got[x[0]] = (step, x[3])
+    out = []
+    for i, k in sent.items():
+        if i not in got:
+            out.append(("datagram %d sent at step %d on a healthy link (fixed latency %d ns) was never delivered" % (i, k, lat), None))
+            continue
+        step, el = got[i]
+        measured = el - k * tick
+        if not (lat - tick <= measured <= lat + tick):
+            out.append(("datagram %d sent at step %d behind TCP segments the destination refuses: measured latency %d ns "
+                        "outside [%d - tick, %d + tick], tick %d" % (i, k, measured, lat, lat, tick), None))
+    return out
+
+
 def gen_burst_script(rng):
     """C14: a large burst on one direction falling due in a single tick, small latency window
     (many equal delivery instants), so that ordering among ties is exercised at scale."""
